@@ -88,7 +88,12 @@ def check_tzif(P, R):
         elif c is not None and c.get("k") == "DeclRefExpr" and c.get("d") in vvars:
             vsw.append(s)
     if len(vsw) != 2:
-        raise AnalysisBroken("%s: expected two switches on the version byte in zif_open, found %d" % (rule, len(vsw)))
+        # the version dispatch is not written as two switches (an if chain, say): which block of which version is decoded with which
+        # width is then a matter of the values, which RF2-zifopen decides by folding zif_open on version 1 and version 2 images
+        # (the latter with a deliberately different version 1 block in front); the structural comparison is not applied
+        R.notes.append("%s: the version dispatch of zif_open is not two switches on the version byte (%d found): structural "
+                       "comparison not applied, decided by RF2-zifopen" % (rule, len(vsw)))
+        return
     want_counts = {"nlp": "tzh_leapcnt", "ntr": "tzh_timecnt", "nty": "tzh_typecnt"}
 
     def group_facts(stmts):
